@@ -75,17 +75,18 @@ func c12Lane(c *Ctx, fn *ssa.Function) {
 		}
 		t := b.Of(e.Results[0], e.Instr)
 		blk := e.Instr.Block()
+		_ = blk
 		switch {
 		case t.IsInt(64) || t.IsInt(32):
 			n64++
-			ok := mustPass(fn, blk, allNon) || (mustPass(fn, blk, slow) && mustPass(fn, blk, loop3out))
+			ok := exitMustPass(fn, e, allNon) || (exitMustPass(fn, e, slow) && exitMustPass(fn, e, loop3out))
 			r.Check(ok, "C12.stage-structure.none-exit", c.ipos(e.Instr), "`none` is returned only when every lane misses the s−1 zeros, or after stage 3 examined every candidate lane")
 		case matches("call<math/bits.TrailingZeros>(un<^>("+W+"))", t):
 			nFast++
-			r.Check(mustPass(fn, blk, someZero) && mustPass(fn, blk, fast), "C12.stage-structure.fast-accept", c.ipos(e.Instr), "fast accept = first lane with s trailing zeros, only when such a lane exists")
+			r.Check(exitMustPass(fn, e, someZero) && exitMustPass(fn, e, fast), "C12.stage-structure.fast-accept", c.ipos(e.Instr), "fast accept = first lane with s trailing zeros, only when such a lane exists")
 		case matches(J, t):
 			nSlow++
-			r.Check(mustPass(fn, blk, slow) && mustPass(fn, blk, loop3) && mustPass(fn, blk, bitZero) && mustPass(fn, blk, cmpLE), "C12.stage-structure.slow-accept", c.ipos(e.Instr), "stage-3 accept returns the examined lane i, a candidate whose integer is <= target")
+			r.Check(exitMustPass(fn, e, slow) && exitMustPass(fn, e, loop3) && exitMustPass(fn, e, bitZero) && exitMustPass(fn, e, cmpLE), "C12.stage-structure.slow-accept", c.ipos(e.Instr), "stage-3 accept returns the examined lane i, a candidate whose integer is <= target")
 		default:
 			r.Viol("C12.stage-structure.exits", c.ipos(e.Instr), "unexpected result of the lane test: %s", short(t.String(), 200))
 		}
@@ -419,17 +420,14 @@ func c12Worker(c *Ctx) {
 	// thresholds are computed once in Mine and handed to every worker
 	mb := ana.NewBuilder(c.P, mine)
 	var sCell, tCell bool
-	for _, blk := range mine.Blocks {
-		for _, ins := range blk.Instrs {
-			if st, ok := ins.(*ssa.Store); ok {
-				t := mb.Of(st.Val, st)
-				if matches("call<"+c12Name(c, "sufficientTrailingZeros")+">(p2, p3)", t) {
-					sCell = true
-				}
-				if matches("call<"+c12Name(c, "targetHash")+">(p2, p3)", t) {
-					tCell = true
-				}
-			}
+	for _, ci := range ana.Calls(mine) {
+		// computed by Mine from its own arguments (and kept in a variable or handed straight to the workers)
+		t := mb.CallTermAt(ci)
+		if matches("call<"+c12Name(c, "sufficientTrailingZeros")+">(p2, p3)", t) {
+			sCell = true
+		}
+		if matches("call<"+c12Name(c, "targetHash")+">(p2, p3)", t) {
+			tCell = true
 		}
 	}
 	r.Check(sCell && tCell, "C12.thresholds.mine-wiring", c.P.Pos(mine.Pos()), "Mine computes s = sufficientTrailingZeros(data, t) and target = targetHash(data, t) from its own arguments")
